@@ -1,5 +1,6 @@
 """C02 - Every integration path in 1-5 populations solves the documented implicit scheme (DESIGN.md C02)."""
-import ast, re
+import ast
+import itertools, re
 from fractions import Fraction
 from sa import generic
 from sa.algebra import Rat, Poly, Translator, AlgebraError, parse_expr, random_identity_test
@@ -95,6 +96,48 @@ def _parse_at(txt):
     return Translator({}, name_hook=name_hook).tr(ast.parse(enc, mode='eval').body)
 
 
+def c_abc_contents(cprog):
+    """compute_abc_nobc by the content of every cell when it returns (sa.cellflow): the four pieces of the reference form, and what
+    is wrong with the ends / the diagonal start, if anything.  Insensitive to how the stores are grouped into loops."""
+    from sa.cellflow import Flow
+    cf = cprog.func('compute_abc_nobc')
+    fl = Flow(cf)
+    A, B, C = cf.param_names()[-3:]
+    if set(fl.arrays()) != {A, B, C}:
+        raise AlgebraError('compute_abc_nobc stores into %s' % fl.arrays())
+
+    def val(arr, cls):
+        table, keys = fl.content(arr, cls)
+        if keys:
+            raise AlgebraError('stores of %s under tests %s' % (arr, keys[:2]))
+        return table[frozenset()]
+    inv_dt = parse_expr('1/dt')
+    line = {arr: min(s.line for s in fl.stores if s.array == arr and s.kind == 'rel') if any(s.array == arr and s.kind == 'rel' for s in fl.stores) else cf.line for arr in (A, B, C)}
+    pieces = {'a': Update('a', 1, 0, '=', val(A, ('mid', 0)), line[A]), 'c': Update('c', 0, -1, '=', val(C, ('mid', 0)), line[C]),
+              'b_low': Update('b', 0, -1, '+=', val(B, ('lo', 0)) - inv_dt, line[B]), 'b_high': Update('b', 1, 0, '+=', val(B, ('hi', 0)) - inv_dt, line[B])}
+    wrong, stale = [], []
+    zero = Rat.const(0)
+    for arr, nm in ((A, 'a'), (B, 'b'), (C, 'c')):
+        for cls in fl.classes(arr):
+            v = val(arr, cls)
+            if any(a_.endswith('.in@0') for a_ in v.atoms()):
+                stale.append('%s[%s] keeps what the caller passed in' % (nm, _cls_text(cls)))
+                continue
+            if nm == 'a':
+                want = zero if cls == ('lo', 0) else pieces['a'].expr
+            elif nm == 'c':
+                want = zero if cls == ('hi', 0) else pieces['c'].expr
+            else:
+                want = inv_dt + (zero if cls == ('hi', 0) else pieces['b_low'].expr) + (zero if cls == ('lo', 0) else pieces['b_high'].expr)
+            if not v.equals(want):
+                wrong.append('%s[%s] = %s' % (nm, _cls_text(cls), v.canon()[:80]))
+    return cf, pieces, wrong, stale, fl
+
+
+def _cls_text(cls):
+    return {'lo': '%d' % cls[1], 'hi': 'N-%d' % (cls[1] + 1), 'mid': 'j'}[cls[0]]
+
+
 def extract_c_abc(cprog):
     cf = cprog.func('compute_abc_nobc')
     ups = c_loop_updates(cf.body, 'N')
@@ -186,31 +229,39 @@ def run_shared(rep, prog, cprog):
     chang = _parse_at('(-epsj*wj + epsj*VInt@0 - VInt@0)/(wj - epsj*wj)')
     ok = False
     det = ''
+    from sa.cellflow import Flow, key_of, compare
+    from sa.algebra import exp_of
     try:
-        guards = [s for s in cd.body if isinstance(s, CIf)]
-        okg = len(guards) == 1 and unparse(guards[0].cond) == 'not use_delj_trick'
-        g_ups = c_loop_updates([s for s in guards[0].body if isinstance(s, CFor)], 'N') if okg else []
-        okd_ = okg and len(g_ups) == 1 and g_ups[0].expr.equals(Rat.const(Fraction(1, 2))) and (g_ups[0].lo, g_ups[0].hi) == (0, -1) and \
-            any(isinstance(s, CReturn) for s in guards[0].body)
-        lp = [s for s in cd.body if isinstance(s, CFor)]
-        okl = len(lp) == 1
-        body = lp[0].body
-        env = {}
-        tr_ = None
-        from sa.stencil import c_translator
-        lv = unparse(lp[0].init.target)
-        tr_ = c_translator(lv, 'N', env)
-        wj = tr_.tr(body[0].value)
-        epsj_arg = body[1].value.args[0]
-        okw = unparse(body[0].target) == 'wj' and wj.equals(_parse_at('2*MInt@0*dx@0')) and unparse(body[1].value.func) == 'exp' and \
-            c_translator(lv, 'N', {'wj': Rat.atom('wj')}).tr(epsj_arg).equals(_parse_at('wj/VInt@0'))
-        iff = body[2]
-        formula = c_translator(lv, 'N', {}).tr(iff.body[0].value)
-        okf = isinstance(iff, CIf) and formula.equals(chang) and c_translator(lv, 'N', {}).tr(iff.orelse[0].value).equals(Rat.const(Fraction(1, 2)))
-        ok = okd_ and okl and okw and okf and (unparse(lp[0].init.value), unparse(lp[0].cond.comparators[0])) == ('0', 'N - 1')
-        det = 'default 0.5; wj = %s; epsj = exp(wj/VInt); delj = %s' % (wj.canon(), formula.canon())
+        fl = Flow(cd)
+        wj_c = _parse_at('2*MInt@0*dx@0')
+        eps_c = exp_of(wj_c / _parse_at('VInt@0'))
+        K_T, K_E, K_W = key_of('nz', Rat.atom('use_delj_trick')), key_of('eq', eps_c - Rat.const(1)), key_of('eq', wj_c)
+        full = chang.subs({'wj': wj_c, 'epsj': eps_c})
+        half = Rat.const(Fraction(1, 2))
+        out_name = cd.param_names()[-2]
+        problems = []
+
+        def ref_delj(cls, sigma):
+            if cls == ('hi', 0):
+                return Rat.atom('%s.in@0' % out_name)      # delj has N-1 entries: cell N-1 is not written
+            # tests the code did not make are free: the reference must not depend on them
+            vals = set()
+            free = [k for k in (K_T, K_E, K_W) if k not in sigma]
+            for bits in itertools.product((True, False), repeat=len(free)):
+                s2 = dict(sigma, **dict(zip(free, bits)))
+                vals.add('full' if (s2[K_T] and not s2[K_E] and not s2[K_W]) else 'half')
+            if len(vals) != 1:
+                # reachable only if the combination is consistent: without the switch the other tests are irrelevant
+                return Rat.atom('UNDETERMINED')
+            return full if vals == {'full'} else half
+        if fl.arrays() != [out_name]:
+            raise AlgebraError('stores into %s' % fl.arrays())
+        ok, bad, unknown, n_ev = compare(fl, out_name, ref_delj, known_keys={K_T, K_E, K_W})
+        if unknown:
+            raise AlgebraError('tests %s' % sorted(set(unknown))[:2])
+        det = ('default 0.5; wj = %s; epsj = exp(wj/VInt); Chang-Cooper weight where the switch is on and epsj != 1 and wj != 0 (%d cell/test combinations)' % (wj_c.canon(), n_ev)) if ok else '; '.join(bad[:2])
     except (AlgebraError, IndexError, AttributeError) as e:
-        det = 'unrecognised structure: %s' % e
+        ok, det = False, 'compute_delj is not recognised: %s' % e
     rep.ob('R-ALG', 'C compute_delj', ok, det, shared, cd.line, what='delj = 1/2 without the trick, Chang-Cooper weight with it, 1/2 at the singular points')
     pdj = prog.func(INT, '_compute_delj')
     # what the function returns with and without the switch, for 1- and 2-dimensional coefficient arrays and every axis: abstract
@@ -288,24 +339,20 @@ def run_shared(rep, prog, cprog):
            what='Python delj equals the C delj')
     # ---- a, b, c assembly: C == reference derived from the flux form ---------------------------------------------------------
     ref = reference_scheme()
-    cf, ups = extract_c_abc(cprog)
-    pieces, extra = split_abc(ups)
+    try:
+        cf, pieces, wrong, stale, fl = c_abc_contents(cprog)
+    except AlgebraError as e:
+        rep.ob('R-ALG', 'C compute_abc_nobc', False, 'compute_abc_nobc is not recognised: %s' % e, shared, cprog.func('compute_abc_nobc').line, what='content of the cells of a, b, c when the function returns')
+        return ref
     for k in ('a', 'b_low', 'b_high', 'c'):
         u = pieces.get(k)
-        ok = u is not None and u.expr.equals(ref[k])
-        rep.ob('R-ALG', 'C compute_abc_nobc %s' % k, ok, ('%s' % u) if u is not None else 'piece missing', shared, u.line if u is not None else cf.line,
-               what='coefficient %s equals the one derived from the conservative flux form' % k)
-    init = {u.array: u for u in extra}
-    okb = 'b' in init and init['b'].op == '=' and (init['b'].lo, init['b'].hi) == (0, 0) and init['b'].expr.equals(parse_expr('1/dt'))
-    oke = 'a[0]' in init and 'c[N-1]' in init and init['a[0]'].expr.is_zero() and init['c[N-1]'].expr.is_zero() and len(extra) == 3
-    # (when the initialisation loop b[ii] = 1/dt is not there at all - fused into the assembly loop - the four-piece template does not
-    # apply: the function is restructured, not wrong)
-    restructured = 'b' not in init
-    rep.ob('R-ALG', 'C compute_abc_nobc init', okb and oke, 'b initialised to 1/dt on [0,N); a[0] = c[N-1] = 0; other statements: %d%s' % (len(extra) - 3, ' (initialisation loop of b not found)' if restructured else ''),
+        ok = u.expr.equals(ref[k])
+        rep.ob('R-ALG', 'C compute_abc_nobc %s' % k, ok, '%s' % u.expr.canon(), shared, u.line,
+               what='coefficient %s (content of the cells when the function returns) equals the one derived from the conservative flux form' % k)
+    rep.ob('R-ALG', 'C compute_abc_nobc init', not wrong, '; '.join(wrong[:3]) if wrong else 'every b cell is 1/dt plus the pieces of the interfaces it has; a[0] = c[N-1] = 0 (%d stores, %d loops)' % (len(fl.stores), fl.loops),
            shared, cf.line, what='diagonal starts at 1/dt, no coupling outside the grid')
-    # order: b must be initialised before the accumulation loop
-    order = [type(s).__name__ for s in cf.body if not isinstance(s, CDecl)]
-    rep.ob('R-DOM', 'C compute_abc_nobc order', order == ['CAssign', 'CAssign', 'CFor', 'CFor'], 'statement kinds %s%s' % (order, ' (initialisation loop of b not found)' if restructured else ''), shared, cf.line,
+    # order: every cell is set before it is accumulated into (otherwise it keeps what the caller passed in)
+    rep.ob('R-DOM', 'C compute_abc_nobc order', not stale, '; '.join(stale[:3]) if stale else 'no cell of a, b, c depends on its content at entry', shared, cf.line,
            what='initialisation precedes accumulation')
     return ref
 
